@@ -223,6 +223,9 @@ def apply_contract(ex, key, self_obj, args, kw, line):
     if self_obj is not None:
         for attr, expr in c.get("self_effects", {}).items():
             self_obj.attrs[attr] = eval_spec_expr(ex, expr, env)
+    if isinstance(result, Obj):
+        for attr, pname in c.get("result_attr_is", {}).items():
+            result.attrs[attr] = bound[pname]
     env = contract_env(ex, c, bound, self_obj, old_self, result)
     env.update(ghost)
     ex.assuming = getattr(ex, "assuming", 0) + 1
@@ -632,6 +635,12 @@ def run_one_path(ex, c, fnode, is_method, res):
         for i, e_ in enumerate(cc.get("visit_ensures", [])):
             g = ex.to_bool(eval_spec_expr(ex, e_, henv))
             ex.oblige("post", f"hypothesis[{i}]", g, line_end, note=f"visitor hypothesis: {e_}")
+    # identity clauses "result.<attr> IS the object passed as <param>" (aliasing facts callers
+    # rely on for frames): decided by the executor, which stores the parameter's own value
+    for attr, pname in c.get("result_attr_is", {}).items():
+        ok = isinstance(result, Obj) and result.attrs.get(attr) is bound.get(pname)
+        ex.oblige_trivial("frame", f"result.{attr}-is-{pname}", ok, line_end,
+                          note=f"the returned object's {attr} is the very object passed as {pname}")
     want_fresh = c.get("fresh")
     if want_fresh in ("node", "shallow", "deep") and isinstance(result, Z):
         order = {"no": 0, "node": 1, "shallow": 2, "deep": 3}
